@@ -1,4 +1,4 @@
-package vfe2e
+package vfkit
 
 import (
 	"context"
@@ -9,13 +9,14 @@ import (
 	"io"
 	"net"
 	"net/http"
+	"reflect"
 	"sync"
 	"sync/atomic"
 	"time"
+	"unsafe"
 
 	"github.com/quic-go/quic-go"
 	"github.com/quic-go/quic-go/http3"
-	"vfkit"
 )
 
 // UpQuery is one query as a fake upstream saw it.
@@ -25,7 +26,7 @@ type UpQuery struct {
 	ConnID    int64
 	Seq       int64 // arrival order at this upstream
 	Raw       []byte
-	Msg       *vfkit.Decoded
+	Msg       *Decoded
 	At        time.Time
 	RepliedAt time.Time // set when the reply (if any) was written
 	mu        sync.Mutex
@@ -51,6 +52,7 @@ type UpAction struct {
 	Extra       [][]byte        // further messages written after Reply (duplicates, garbage)
 	CloseBefore bool            // close the connection instead of replying
 	CloseAfter  bool
+	Reset       bool   // with CloseBefore/CloseAfter on plain TCP: close with SO_LINGER 0 (RST)
 	RawStream   []byte // stream transports: write these octets verbatim instead of a framed Reply
 	HTTPStatus  int    // DoH: status to send (0 = 200)
 }
@@ -75,7 +77,64 @@ type FakeUpstream struct {
 	closed      atomic.Bool
 	inflight    atomic.Int64
 	maxInflight atomic.Int64
+
+	open        atomic.Int64 // stream / QUIC connections currently open (as far as the server can tell)
+	AcceptDelay atomic.Int64 // nanoseconds to wait before serving an accepted stream connection (delayed handshake)
+	liveMu      sync.Mutex
+	live        map[int64]io.Closer // open accepted connections by id
+	liveTCP     map[int64]*net.TCPConn
 }
+
+// OpenConns is the number of accepted connections the peer has not closed yet.
+func (u *FakeUpstream) OpenConns() int64 { return u.open.Load() }
+
+func (u *FakeUpstream) trackConn(id int64, c io.Closer, raw net.Conn) {
+	u.liveMu.Lock()
+	if u.live == nil {
+		u.live = map[int64]io.Closer{}
+		u.liveTCP = map[int64]*net.TCPConn{}
+	}
+	u.live[id] = c
+	if t, ok := raw.(*net.TCPConn); ok {
+		u.liveTCP[id] = t
+	}
+	u.liveMu.Unlock()
+	u.open.Add(1)
+}
+
+func (u *FakeUpstream) untrackConn(id int64) {
+	u.liveMu.Lock()
+	_, ok := u.live[id]
+	delete(u.live, id)
+	delete(u.liveTCP, id)
+	u.liveMu.Unlock()
+	if ok {
+		u.open.Add(-1)
+	}
+}
+
+// KillConns closes every open accepted connection (reset = SO_LINGER 0 where possible). It returns how many.
+func (u *FakeUpstream) KillConns(reset bool) int {
+	u.liveMu.Lock()
+	cs := make([]io.Closer, 0, len(u.live))
+	for id, c := range u.live {
+		if reset {
+			if t := u.liveTCP[id]; t != nil {
+				t.SetLinger(0)
+			}
+		}
+		cs = append(cs, c)
+	}
+	u.liveMu.Unlock()
+	for _, c := range cs {
+		c.Close()
+	}
+	return len(cs)
+}
+
+type quicCloser struct{ c quic.Connection }
+
+func (q quicCloser) Close() error { return q.c.CloseWithError(0, "killed by the harness") }
 
 func (u *FakeUpstream) SetHandler(h Handler) { u.handler.Store(h) }
 
@@ -123,7 +182,7 @@ func (u *FakeUpstream) Close() {
 
 func (u *FakeUpstream) record(transport string, conn int64, raw []byte) *UpQuery {
 	q := &UpQuery{Up: u, Transport: transport, ConnID: conn, Raw: append([]byte(nil), raw...), At: time.Now(), Seq: u.seq.Add(1)}
-	q.Msg = vfkit.Decode(q.Raw)
+	q.Msg = Decode(q.Raw)
 	u.mu.Lock()
 	u.queries = append(u.queries, q)
 	u.mu.Unlock()
@@ -156,7 +215,7 @@ func (u *FakeUpstream) act(q *UpQuery) UpAction {
 	return a
 }
 
-func frame(b []byte) []byte {
+func Frame(b []byte) []byte {
 	return append(binary.BigEndian.AppendUint16(nil, uint16(len(b))), b...)
 }
 
@@ -216,8 +275,17 @@ func StartUpstream(kind, tag, ip string, port int, tlsCfg *tls.Config, h Handler
 		cfg.NextProtos = []string{"h2", "http/1.1"}
 		srv := &http.Server{Handler: http.HandlerFunc(func(w http.ResponseWriter, r *http.Request) { u.serveHTTP(w, r, "doh") }), TLSConfig: cfg,
 			ConnState: func(c net.Conn, s http.ConnState) {
-				if s == http.StateNew {
+				id := int64(uintptr(unsafe.Pointer(reflect.ValueOf(c).Pointer())))
+				switch s {
+				case http.StateNew:
 					u.conns.Add(1)
+					var raw net.Conn = c
+					if tc, ok := c.(*tls.Conn); ok {
+						raw = tc.NetConn()
+					}
+					u.trackConn(id, c, raw)
+				case http.StateClosed, http.StateHijacked:
+					u.untrackConn(id)
 				}
 			}}
 		addClose(srv)
@@ -286,8 +354,25 @@ func (u *FakeUpstream) serveStream(l net.Listener, transport string) {
 		}
 		u.conns.Add(1)
 		id := u.connSeq.Add(1)
+		var raw net.Conn = c
+		if tc, ok := c.(*tls.Conn); ok {
+			raw = tc.NetConn()
+		}
+		u.trackConn(id, c, raw)
 		go func() {
+			defer u.untrackConn(id)
 			defer c.Close()
+			if d := u.AcceptDelay.Load(); d > 0 {
+				time.Sleep(time.Duration(d))
+			}
+			closeConn := func(reset bool) {
+				if reset {
+					if t, ok := raw.(*net.TCPConn); ok {
+						t.SetLinger(0)
+					}
+				}
+				c.Close()
+			}
 			var wmu sync.Mutex
 			var wg sync.WaitGroup
 			defer wg.Wait()
@@ -306,7 +391,7 @@ func (u *FakeUpstream) serveStream(l net.Listener, transport string) {
 					defer wg.Done()
 					a := u.act(q)
 					if a.CloseBefore {
-						c.Close()
+						closeConn(a.Reset)
 						return
 					}
 					wmu.Lock()
@@ -314,15 +399,15 @@ func (u *FakeUpstream) serveStream(l net.Listener, transport string) {
 						c.Write(a.RawStream)
 						q.setReplied()
 					} else if a.Reply != nil {
-						c.Write(frame(a.Reply))
+						c.Write(Frame(a.Reply))
 						q.setReplied()
 					}
 					for _, e := range a.Extra {
-						c.Write(frame(e))
+						c.Write(Frame(e))
 					}
 					wmu.Unlock()
 					if a.CloseAfter {
-						c.Close()
+						closeConn(a.Reset)
 					}
 				}()
 			}
@@ -383,6 +468,11 @@ func (u *FakeUpstream) serveQUIC(l *quic.Listener) {
 		}
 		u.conns.Add(1)
 		id := u.connSeq.Add(1)
+		u.trackConn(id, quicCloser{c}, nil)
+		go func() {
+			<-c.Context().Done()
+			u.untrackConn(id)
+		}()
 		go func() {
 			for {
 				s, err := c.AcceptStream(context.Background())
@@ -409,7 +499,7 @@ func (u *FakeUpstream) serveQUIC(l *quic.Listener) {
 						s.Write(a.RawStream)
 						q.setReplied()
 					} else if a.Reply != nil {
-						s.Write(frame(a.Reply))
+						s.Write(Frame(a.Reply))
 						q.setReplied()
 					}
 					if a.CloseAfter {
